@@ -15,7 +15,9 @@ import anyio
 from ..explore import E1Check, new_summary, run_main_asyncio
 
 ANNS = ("T", "Optional[T]", "T | None", "'T'", "'Optional[T]'", "'T | None'", "future",
-        "None | T", "Union[None, T]", "'Union[None, T]'", "Optional['T']", "Union['T', None]")
+        "None | T", "Union[None, T]", "'Union[None, T]'", "Optional['T']", "Union['T', None]",
+        # typing.Annotated carries metadata for other tools: the injected type is the annotated one
+        "Annotated[T, 5]", "Optional[Annotated[T, 5]]", "'Annotated[T, 5]'")
 STATES = ("static", "sync-factory", "async-factory", "inherited", "generated-in-parent", "missing", "broken-factory")
 TEMPLATES = {
     # name: (signature with {r1} {r2} placeholders, ordinary parameter names, injected parameter names)
@@ -57,7 +59,7 @@ def gen_source(template: str, ann1: str, ann2: str, name1: str, name2: str, is_a
     lines = []
     if future:
         lines.append("from __future__ import annotations")
-    lines.append("from typing import Optional, Union")
+    lines.append("from typing import Annotated, Optional, Union")
     lines.append("from asphalt.core import inject, resource")
     if local:
         lines.append("def make():")
